@@ -206,6 +206,7 @@ var invalidations = []invalidation{
 	{"unknown field in [defaults]", textInsert("[defaults]", "  loudness = 3")},
 	{"unknown field in [identifier]", textInsert("[identifier]", "  serial = 3")},
 	{"unknown field in [[mapping]]", textInsert("[[mapping]]", "  colour = \"red\"")},
+	{"unknown field in [open_rgb]", textInsert("[open_rgb]", "  whiet = 0x00ff00")},
 	{"unknown field in an analog entry", descEdit(func(r *simrt.Rng, d *model.Desc) bool {
 		a := axisOfType(d, "", nil)
 		if a == nil {
